@@ -45,8 +45,9 @@ func (w *faultWriter) Write(p []byte) (int, error) {
 		k     int
 		err   bool
 		short bool // the error is io.ErrShortWrite, what a well-behaved writer returns for a short write
+		full  bool // the error is lz.ErrFullBuffer: the writer is itself a buffer of this module (ParserBuffer.Write returns it)
 	}
-	var alts [12]ans
+	var alts [16]ans
 	na := 0
 	add := func(k int, err bool) {
 		for i := 0; i < na; i++ {
@@ -70,6 +71,10 @@ func (w *faultWriter) Write(p []byte) (int, error) {
 			alts[na] = ans{k: 1, err: true, short: true}
 			na++
 		}
+		alts[na] = ans{k: 0, err: true, full: true}
+		na++
+		alts[na] = ans{k: min(1, n), err: true, full: true}
+		na++
 		if !w.contract {
 			add(0, false)
 			add(1, false)
@@ -98,6 +103,9 @@ func (w *faultWriter) Write(p []byte) (int, error) {
 		if a.short {
 			w.lastErr = io.ErrShortWrite
 		}
+		if a.full {
+			w.lastErr = lz.ErrFullBuffer
+		}
 		return a.k, w.lastErr
 	}
 	if a.k < n {
@@ -106,7 +114,9 @@ func (w *faultWriter) Write(p []byte) (int, error) {
 	return a.k, nil
 }
 
-func isWriterErr(err error) bool { return err == errScriptedWriter || err == io.ErrShortWrite }
+func isWriterErr(err error) bool {
+	return err == errScriptedWriter || err == io.ErrShortWrite
+}
 
 // FOp is one operation of a decoder script.
 type FOp struct {
@@ -219,7 +229,9 @@ func (r *faultRun) run(c *engine.Chooser) (refused bool) {
 			r.log = append(r.log, fmt.Sprintf(format, a...))
 		}
 	}
-	// check after every API call
+	// check after every API call; fromWriter tells whether the error just returned is the one the writer gave
+	// (lz.ErrFullBuffer can come from the decoder itself or from a writer that is a buffer of this module)
+	fromWriter := false
 	after := func(name string, err error) (stop bool) {
 		r.st.Transitions++
 		if w.notPfx {
@@ -230,6 +242,7 @@ func (r *faultRun) run(c *engine.Chooser) (refused bool) {
 			r.fail(name+"|error-not-surfaced", "the writer returned an error during %s but the call returned %v", name, err)
 			return true
 		}
+		fromWriter = w.errs > 0 && err != nil && err == w.lastErr
 		if w.errs == 0 && isWriterErr(err) {
 			r.fail(name+"|phantom-error", "%s returned the writer's error although the writer did not fail during the call", name)
 			return true
@@ -277,7 +290,7 @@ func (r *faultRun) run(c *engine.Chooser) (refused bool) {
 				if err == nil {
 					break
 				}
-				if !isWriterErr(err) {
+				if !fromWriter {
 					if isSizeRefusal(err) {
 						return true
 					}
@@ -311,7 +324,7 @@ func (r *faultRun) run(c *engine.Chooser) (refused bool) {
 					}
 					break
 				}
-				if !isWriterErr(err) {
+				if !fromWriter {
 					if isSizeRefusal(err) {
 						return true
 					}
@@ -336,7 +349,7 @@ func (r *faultRun) run(c *engine.Chooser) (refused bool) {
 					checkOff("WriteByte")
 					break
 				}
-				if !isWriterErr(err) {
+				if !fromWriter {
 					r.fail("WriteByte|error", "WriteByte returned %v", err)
 					return
 				}
@@ -366,7 +379,7 @@ func (r *faultRun) run(c *engine.Chooser) (refused bool) {
 		if err == nil && w.silent == 0 {
 			break
 		}
-		if err != nil && !isWriterErr(err) {
+		if err != nil && !fromWriter {
 			r.fail("Flush|error", "Flush returned %v", err)
 			return
 		}
